@@ -503,6 +503,7 @@ func NewHostTransport(conn net.Conn, priv types.PrivateKey) (_ *Transport, err e
 	}
 	if !supportsChaCha {
 		(&loopKeyExchangeResponse{Cipher: cipherNoOverlap}).EncodeTo(e)
+		e.Flush() // best effort: the handshake has failed either way
 		return nil, errors.New("no supported ciphers")
 	}
 
@@ -558,14 +559,16 @@ func NewRenterTransport(conn net.Conn, pub types.PublicKey) (_ *Transport, err e
 	if err := d.Err(); err != nil {
 		return nil, fmt.Errorf("couldn't read host's handshake: %w", err)
 	}
+	// a rejection carries neither key nor signature
+	if resp.Cipher == cipherNoOverlap {
+		return nil, errors.New("host does not support any of our proposed ciphers")
+	}
 	// validate the signature before doing anything else
 	h := hashKeys(req.PublicKey, resp.PublicKey)
 	if !pub.VerifyHash(h, resp.Signature) {
 		return nil, errors.New("host's handshake signature was invalid")
 	}
-	if resp.Cipher == cipherNoOverlap {
-		return nil, errors.New("host does not support any of our proposed ciphers")
-	} else if resp.Cipher != cipherChaCha20Poly1305 {
+	if resp.Cipher != cipherChaCha20Poly1305 {
 		return nil, errors.New("host selected unsupported cipher")
 	}
 
